@@ -88,8 +88,14 @@ func c04Resume(maxURLs int) {
 	for i := 0; i < n; i++ {
 		urls = append(urls, sqlc_model.Url{ID: "id" + string(rune('0'+i)), Value: "http://q.example/" + string(rune('a'+i))})
 	}
-	must(globalLQ.client.Add(context.TODO(), urls, false))
 	finished := map[string]bool{}
+	if verifrt.Choice("first-row-is-not-a-url", 2) == 1 {
+		// a row the consumer cannot turn into a request: the queue itself reports it finished (and only it)
+		urls[0].Value = "q.example/not-a-request-uri"
+		finished[urls[0].ID] = true
+		verifrt.Cover("unparsable-row")
+	}
+	must(globalLQ.client.Add(context.TODO(), urls, false))
 	handed1 := map[string]int{}
 	want := verifrt.Choice("handed-out-before-the-stop", n+1)
 	inFlight := 0
@@ -158,6 +164,9 @@ func c04Resume(maxURLs int) {
 			verifrt.Assert(handed2[id] == 1, "C04 a URL not reported finished before the "+how+" is crawled again after the restart")
 		} else {
 			verifrt.Assert(handed2[id] <= 1, "C04 no URL is handed out twice in one run")
+			if urls[i].Value == "q.example/not-a-request-uri" {
+				verifrt.Assert(handed1[id] == 0 && handed2[id] == 0, "C04 a row that is not a URL is never handed out")
+			}
 		}
 	}
 	reactor.Freeze()
